@@ -1,5 +1,6 @@
 import Skv.Lemmas.BTreeDel
 import Skv.Lemmas.BtOverflow
+import Skv.Lemmas.BtScan
 /-!
 # C18 — the B+tree index is a persistent ordered map
 
@@ -126,3 +127,17 @@ example :
     let (st2, p) := prepareSlot loc st1 { key := [5, 5, 5, 5], ovf := none }
     (rotRight ([a], p, [])).map (fun t => (t.1.length, t.2.1.key, t.2.2.length)) = some (0, [1, 1, 1, 1], 1) ∧
       st2.chains.length = 2 ∧ a.ovf = some 0 ∧ p.ovf = some 1 := by decide
+
+
+/-- **a full scan lists every entry, whatever leaves deletes have emptied.**  The cursor's walk over the
+leaf chain (`seek_first`, then `next` to the end), with `advance_to_next_leaf` going on to the next
+non-empty leaf, visits exactly the entries of the tree in order. -/
+theorem C18_scan_complete (t : BT) : walkFwd true t.leaves = t.toList := by
+  rw [walkFwd_skip, BT.leaves_flatten]
+
+/-- the defect repaired by `8434f42`, kernel-checked: with a leaf in the middle emptied by deletes the
+walk that does not skip it stops there -/
+theorem fixed_scan_stopped_at_empty_leaf :
+    let t := BT.node (.leaf [(1, 10)]) (.cons 5 (.leaf []) (.cons 9 (.leaf [(9, 90)]) .nil))
+    walkFwd false t.leaves = [(1, 10)] ∧ walkFwd true t.leaves = [(1, 10), (9, 90)] ∧
+      t.toList = [(1, 10), (9, 90)] := by decide
